@@ -3,6 +3,7 @@ package txsim
 import (
 	"fmt"
 	"math/big"
+	"sort"
 
 	"github.com/vechain/thor/v2/builtin"
 	"github.com/vechain/thor/v2/thor"
@@ -262,7 +263,80 @@ func (o *Obs) PropertyC08() *Failure {
 		if rc.GasUsed > 0 && new(big.Int).Mod(rc.Paid, new(big.Int).SetUint64(rc.GasUsed)).Sign() != 0 {
 			return &Failure{"paid-not-multiple-of-gas", "paid is not gasUsed times a price"}
 		}
-		// the payer is charged exactly paid (net of a reward it may receive as beneficiary), unless funds also reached it through clauses
+	}
+	// per account, from the receipt alone: exactly the payer is charged gasUsed x price, exactly the beneficiary receives the
+	// reward, and no other account's VET / VTHO (at block time) moves except through the transfers / energy Transfer events
+	// the receipt shows.  Every leaf of both walks is checked (known address or not).
+	expE, expB := map[thor.Bytes32]*big.Int{}, map[thor.Bytes32]*big.Int{}
+	bump := func(m map[thor.Bytes32]*big.Int, a thor.Address, d *big.Int, sign int) {
+		k := thor.Blake2b(a[:])
+		if m[k] == nil {
+			m[k] = new(big.Int)
+		}
+		if sign > 0 {
+			m[k].Add(m[k], d)
+		} else {
+			m[k].Sub(m[k], d)
+		}
+	}
+	var payerKey thor.Bytes32
+	if o.applied() {
+		rc := o.Receipt
+		payerKey = thor.Blake2b(rc.GasPayer[:])
+		bump(expE, rc.GasPayer, rc.Paid, -1)
+		bump(expE, o.Benef, rc.Reward, +1)
+		for _, out := range rc.Outputs {
+			for _, tf := range out.Transfers {
+				bump(expB, tf.Sender, tf.Amount, -1)
+				bump(expB, tf.Recipient, tf.Amount, +1)
+			}
+			for _, ev := range out.Events {
+				if ev.Address == builtin.Energy.Address && len(ev.Topics) == 3 && ev.Topics[0] == energyTransferID {
+					amt := new(big.Int).SetBytes(ev.Data)
+					bump(expE, thor.BytesToAddress(ev.Topics[1][12:]), amt, -1)
+					bump(expE, thor.BytesToAddress(ev.Topics[2][12:]), amt, +1)
+				}
+			}
+		}
+	}
+	keys := map[thor.Bytes32]bool{}
+	for k := range o.Pre.Leaves {
+		keys[k] = true
+	}
+	for k := range o.Post.Leaves {
+		keys[k] = true
+	}
+	zero := new(big.Int)
+	sorted := make([]thor.Bytes32, 0, len(keys))
+	for k := range keys {
+		sorted = append(sorted, k)
+	}
+	sort.Slice(sorted, func(i, j int) bool { return string(sorted[i][:]) < string(sorted[j][:]) })
+	for _, k := range sorted {
+		pe, qe, pb, qb := zero, zero, zero, zero
+		if p := o.Pre.Leaves[k]; p != nil {
+			pe, pb = p.EnergyAtT, p.Bal
+		}
+		if q := o.Post.Leaves[k]; q != nil {
+			qe, qb = q.EnergyAtT, q.Bal
+		}
+		we, wb := expE[k], expB[k]
+		if we == nil {
+			we = zero
+		}
+		if wb == nil {
+			wb = zero
+		}
+		if d := new(big.Int).Sub(qe, pe); d.Cmp(we) != 0 {
+			if o.applied() && k == payerKey {
+				return &Failure{selfClass("payer-not-charged-gas-times-price"), fmt.Sprintf("gas payer %s: VTHO changed by %s, receipt implies %s (paid=%s = gasUsed x price)",
+					o.Receipt.GasPayer, d, we, o.Receipt.Paid)}
+			}
+			return &Failure{selfClass("vtho-moved-without-ledger-op"), fmt.Sprintf("account leaf %x: VTHO at block time changed by %s, the receipt (paid / reward / energy transfers) implies %s", k[:6], d, we)}
+		}
+		if d := new(big.Int).Sub(qb, pb); d.Cmp(wb) != 0 {
+			return &Failure{selfClass("vet-moved-without-transfer"), fmt.Sprintf("account leaf %x: VET changed by %s, the receipt's transfers imply %s", k[:6], d, wb)}
+		}
 	}
 	return nil
 }
